@@ -353,6 +353,161 @@ def _check_ops(ctx, n):
                           {'kind': 'hash', 'value': str(a)})
 
 
+# ---------------------------------------------------------------------------------------------
+# history family: operands of DIFFERENT kinds carrying EQUAL values, within one process
+# ---------------------------------------------------------------------------------------------
+
+FLOATLIKE = ('float', 'npfloat', 'npfloat32')
+
+
+def equal_value_group(value):
+    """value: a python float or int. Returns {kind: operand object}; all operands compare equal to `value`
+    but the documented meaning differs by kind: a float-like operand counts as the shortest decimal
+    representation of float(operand) in arithmetic and as its exact binary value in comparisons, every
+    other kind is the exact rational it holds."""
+    TimeType, numeric, gmpy2 = _imports()
+    import numpy
+    import sympy
+    out = {}
+    if isinstance(value, float):
+        ex = F(value)
+        out['float'] = value
+        out['npfloat'] = numpy.float64(value)
+        with numpy.errstate(all='ignore'):
+            f32 = numpy.float32(value)
+        if math.isfinite(float(f32)) and float(f32) == value:
+            out['npfloat32'] = f32
+        out['fraction'] = ex
+        out['mpq'] = gmpy2.mpq(ex.numerator, ex.denominator)
+        out['timetype'] = TimeType.from_float(value, 0)
+        out['sympy'] = sympy.Rational(ex.numerator, ex.denominator)
+        if ex.denominator == 1:
+            out['int'] = int(ex)
+    else:
+        n = int(value)
+        out['int'] = n
+        if abs(n) < 2 ** 62:
+            out['npint'] = numpy.int64(n)
+        try:
+            fl = float(n)
+        except OverflowError:
+            fl = None
+        if fl is not None and fl == n:
+            out['float'] = fl
+            out['npfloat'] = numpy.float64(fl)
+        out['fraction'] = F(n)
+        out['mpq'] = gmpy2.mpq(n)
+        out['timetype'] = TimeType.from_fraction(n, 1)
+        out['sympy'] = sympy.Integer(n)
+    return out
+
+
+def documented_value(kind, obj, op) -> F:
+    if kind in FLOATLIKE:
+        return float_arith_value(float(obj)) if op in ARITH else F(float(obj))
+    if kind == 'timetype' or kind == 'mpq':
+        return F(int(obj.numerator), int(obj.denominator))
+    if kind == 'sympy':
+        return F(int(obj.p), int(obj.q))
+    return F(int(obj)) if kind in ('int', 'npint') else F(obj)
+
+
+def _history_values(rng, n):
+    """floats whose shortest decimal differs from the binary value (the interesting ones), dyadic floats, and
+    integers beyond 2**53 (float(n) == n but repr(float(n)) is a different integer)."""
+    fixed = [0.1, 0.2, 0.3, 0.7, 1.1, 2.675, 1e-7, 1.5e-07, 123456.789, 0.5, -0.75, 3.0, 1e22, 1e23,
+             2 ** 60, 2 ** 70, -(2 ** 55), 7, 0, -1, 10 ** 17]
+    out = list(fixed)
+    for _ in range(n):
+        k = rng.random()
+        if k < 0.55:
+            out.append(round(rng.uniform(-1000, 1000), rng.randrange(1, 8)))
+        elif k < 0.7:
+            out.append(float(rng.randrange(-10 ** 4, 10 ** 4)) / rng.choice([2, 4, 8, 1024]))      # dyadic
+        elif k < 0.8:
+            out.append(float(numpy_f32(rng.uniform(-100, 100))))                                     # float32-exact
+        elif k < 0.9:
+            out.append(rng.randrange(-100, 100))
+        else:
+            out.append(rng.choice([-1, 1]) * (rng.getrandbits(53) | (1 << 52)) << rng.randrange(1, 12))   # > 2**53
+    return out
+
+
+def numpy_f32(x):
+    import numpy
+    return numpy.float32(x)
+
+
+def _run_history_group(TimeType, value, op, a: F, side, order):
+    """Apply `op` between TimeType(a) and every operand of the group in the given order. Returns a list of
+    (kind, got, line) where line is the Lean request for the documented meaning."""
+    group = equal_value_group(value)
+    tt = TimeType.from_fraction(a.numerator, a.denominator)
+    out = []
+    for kind in order:
+        if kind not in group:
+            continue
+        if kind == 'sympy' and side == 'right':
+            continue                                   # sympy's own operator would decide, see _ops_cases
+        other = group[kind]
+        bval = documented_value(kind, other, op)
+        try:
+            res = BINOPS[op](tt, other) if side == 'left' else BINOPS[op](other, tt)
+            got = canon_result(res)
+        except ZeroDivisionError:
+            got = 'error:zero_division'
+        except Exception as exc:  # noqa
+            got = 'error:' + core.classify_exception(exc)
+        la, lb = (a, bval) if side == 'left' else (bval, a)
+        out.append((kind, got, sx(['c14', 'binop', op, la, lb])))
+    return out
+
+
+ALL_KINDS = ('float', 'npfloat', 'npfloat32', 'fraction', 'mpq', 'timetype', 'sympy', 'int', 'npint')
+
+
+def _judge_history(ctx, groups):
+    """groups: list of (value, op, a, side, order, results)."""
+    lines = [line for g in groups for (_, _, line) in g[5]]
+    answers = iter(core.Lean.run(lines))
+    for value, op, a, side, order, results in groups:
+        done = []
+        for kind, got, line in results:
+            want = canon_model(next(answers))
+            ctx.case(sx(['history', repr(value), op, a, side, kind, len(done)]))
+            ctx.count('history:' + ('first' if not done else 'later') + ':' + kind)
+            if got != want:
+                ctx.disagreements += 1
+                ctx.violation(
+                    'TimeType(%s) %s %s operand %r (%s side) after the same operation with equal-valued operands of '
+                    'kinds %s in this process: got %s, documented rational result %s'
+                    % (a, op, kind, value, side, done or '[] (first use)', got, want),
+                    {'kind': 'history', 'value': repr(value), 'op': op, 't': str(a), 'side': side,
+                     'order': list(order), 'failing_kind': kind, 'impl': got, 'spec': want})
+            done.append(kind)
+
+
+def _check_history(ctx, n):
+    TimeType, numeric, gmpy2 = _imports()
+    rng = ctx.fork('history')
+    groups = []
+    for value in _history_values(rng, n):
+        if isinstance(value, float) and not math.isfinite(value):
+            continue
+        op = rng.choice(list(BINOPS))
+        q = rng.randrange(1, 1 << rng.randrange(1, 12))
+        a = F(rng.randrange(-5 * q, 5 * q), q)
+        side = rng.choice(['left', 'right'])
+        order = list(ALL_KINDS)
+        rng.shuffle(order)
+        # both orders: the same value cannot be "first" twice in one process, so half of the groups lead
+        # with a float-like kind and half with an exact kind
+        lead_float = rng.random() < 0.5
+        order.sort(key=lambda k: (k in FLOATLIKE) != lead_float)
+        groups.append((value, op, a, side, order, _run_history_group(TimeType, value, op, a, side, order)))
+    _judge_history(ctx, groups)
+
+
 def _from_float_guarded(TimeType, f, *args):
     try:
         return TimeType.from_float(f, *args)
@@ -485,7 +640,9 @@ def _known_pf21(ctx):
 def run(ctx: core.Ctx):
     ctx.rule = ('approximate_rational: exhaustive x=p/q, e=p\'/q\' with q,q\'<=B, x in [-2,3], plus random '
                 '(wide, float-born, near-simple-fraction boundary, malformed e<=0); TimeType operator table over '
-                '8 operand kinds x 11 binary + 8 unary operators; from_float in 3 modes. Non-trivial = the '
+                '8 operand kinds x 11 binary + 8 unary operators; history family: one operator applied in one process to '
+                'operands of different kinds carrying equal values (float / numpy float64,float32 / Fraction / mpq / '
+                'exact TimeType / sympy / int), float-like kinds first or exact kinds first; from_float in 3 modes. Non-trivial = the '
                 'approximation loop is entered (non-integer x) or an operator/convert case; distinct by canonical line')
     ctx.assumptions = [
         'CPython float repr is the shortest round-tripping decimal and int/int true division is correctly rounded',
@@ -501,6 +658,7 @@ def run(ctx: core.Ctx):
                                  % (bound, len(cases)))
     _check_approx(ctx, cases, 'approx-exh')
     _check_approx(ctx, list(approx_cases_random(ctx.fork('approx'), ctx.n(3000, 60000))), 'approx-rnd')
+    _check_history(ctx, ctx.n(700, 12000))
     _check_ops(ctx, ctx.n(4000, 60000))
     _check_from_float(ctx, ctx.n(1500, 30000))
     _known_pf21(ctx)
@@ -511,6 +669,14 @@ def replay(ctx: core.Ctx, rec: dict, from_corpus: bool = False) -> bool:
     if kind == 'approx':
         x, e = F(rec['x']), F(rec['e'])
         _check_approx(ctx, [(x, e)], 'replay')
+    elif kind == 'history':
+        # a fresh process: the recorded order of operand kinds is what matters
+        TimeType, numeric, gmpy2 = _imports()
+        v = rec['value']
+        value = float(v) if any(c in v for c in '.einf') else int(v)
+        a = F(rec['t'])
+        res = _run_history_group(TimeType, value, rec['op'], a, rec['side'], rec['order'])
+        _judge_history(ctx, [(value, rec['op'], a, rec['side'], rec['order'], res)])
     elif kind in ('op', 'hash', 'pow', 'from_float', 'from_float_tol', 'from_float_back'):
         # these families are deterministic given the seed: re-run the family at the recorded seed
         sub = core.Ctx(ctx.pid, rec.get('tier', 'quick'), rec.get('seed', 0))
